@@ -8,6 +8,7 @@ import NxProofs.Negotiation
 import NxModel.Nex.C14Wire
 import NxProofs.C14Str
 import NxProofs.Sys
+import NxProofs.Duplex
 /-!
 # C14 — values survive a client → server → client round trip through any generated method
 
@@ -290,6 +291,51 @@ theorem rpc_request_between_endpoints (penv : L1.Env) (hl : L1.EnvLaws penv)
   rw [henc] at e1
   cases e1
   exact ⟨msg, e2, r⟩
+
+/-- **a whole remote call between two PRUDP endpoints, both directions on ONE connection** (`NxProofs/Duplex.lean`): `ops` is
+    ANY history of the duplex system — sends of both ends fragment by fragment, keep-alives, deliveries of any copy of any packet
+    of either direction through the other end's whole receive path, acknowledgements, retransmission timers of both ends. If
+    the k-th message the client's RMC layer (end A) passed to `send` is the framed request of a generated-client call and the
+    k'-th message the server's RMC layer (end B) passed to `send` is the framed success response of that method, then the k-th
+    message B's RMC layer is handed parses to that request and the generated server decodes the visible arguments, AND the
+    k'-th message A's RMC layer is handed parses to that response and the generated client decodes the visible results. -/
+theorem rpc_roundtrip_between_endpoints (penv : L1.Env) (hl : L1.EnvLaws penv)
+    (sub : Nat) (ciA ciB : Chan.Cipher) (sizeA sizeB : Nat) (hA : 1 ≤ sizeA) (hB : 1 ≤ sizeB) (startA startB : Nat)
+    (ops : List L1.DOp) (d : L1.Duplex) (chAB chBA : Chan.Chan)
+    (h0 : L1.DGood penv sub ciA ciB sizeA sizeB startA startB d chAB chBA) (hok : L1.Duplex.runOk penv sub d ops = true)
+    {env : Env} {cfg : Cfg} {fuel : Nat} {p : ProtoDef} {m : MethodDef} {args res : List Val} {pi mi : Nat} {body rbody : Bytes}
+    (h : clientRequest env cfg fuel p m args = .ok (pi, mi, body)) (callId : Nat)
+    (hwf : (Rmc.Spec.request pi callId mi body).WF) (wire : Bytes)
+    (henc : Rmc.encode (Rmc.ofSpec (.request pi callId mi body)) = .ok wire)
+    (hr : serverResponse env cfg fuel m res = .ok rbody)
+    (hwfr : (Rmc.Spec.success pi callId m.id rbody).WF) (rwire : Bytes)
+    (hencr : Rmc.encode (Rmc.ofSpec (.success pi callId m.id rbody)) = .ok rwire)
+    (k k' : Nat)
+    (hsent : (L1.Duplex.run penv sub d ops).ab.accepted[k]? = some wire)
+    (hsentr : (L1.Duplex.run penv sub d ops).ba.accepted[k']? = some rwire)
+    (got : Bytes) (hgot : ((L1.Duplex.run penv sub d ops).ab.b.queues[sub]?.getD [])[k]? = some got)
+    (gotr : Bytes) (hgotr : ((L1.Duplex.run penv sub d ops).ab.a.queues[sub]?.getD [])[k']? = some gotr) :
+    (∃ msg, Rmc.decode got = .ok msg ∧ msg.mode = 0 ∧ msg.protocol = p.id ∧ msg.method = some m.id ∧ msg.callId = callId
+      ∧ serverRequest env cfg fuel m msg.body = .ok (visArgs env cfg fuel m.request args)) ∧
+    (∃ msg, Rmc.decode gotr = .ok msg ∧ msg.mode = 1 ∧ msg.callId = callId ∧ msg.error = -1
+      ∧ clientResponse env cfg fuel m msg.body = .ok (visArgs env cfg fuel m.response res)) := by
+  have hg := L1.duplex_run penv hl sub ciA ciB sizeA sizeB hA hB startA startB ops d chAB chBA h0 hok
+  constructor
+  · have hd := L1.good_delivers_kth hg.ab k got hgot
+    rw [hsent] at hd
+    cases hd
+    obtain ⟨wire', msg, e1, e2, r⟩ := rpc_roundtrip_request h callId hwf
+    rw [henc] at e1
+    cases e1
+    exact ⟨msg, e2, r⟩
+  · rw [hg.same.a] at hgotr
+    have hd := L1.good_delivers_kth hg.ba k' gotr hgotr
+    rw [hsentr] at hd
+    cases hd
+    obtain ⟨wire', msg, e1, e2, r⟩ := rpc_roundtrip_response hr pi callId hwfr
+    rw [hencr] at e1
+    cases e1
+    exact ⟨msg, e2, r⟩
 
 /-- **response leg over a misbehaving network** (the other direction of the connection is another channel) -/
 theorem rpc_response_over_faulty_network (c : Chan.Cipher) (hc : Chan.CipherOk c) (size : Nat) (hsz : 1 ≤ size)
